@@ -2,13 +2,29 @@ package store
 
 import (
 	"context"
+	"os"
+	"path/filepath"
 
 	"dsim/core"
 	"dsim/simos"
 
 	"github.com/dolthub/dolt/go/store/chunks"
 	"github.com/dolthub/dolt/go/store/nbs"
+	"github.com/dolthub/dolt/go/store/util/tempfiles"
 )
+
+func init() {
+	// production points the movable-temp-file provider at a directory that can be renamed into the
+	// database directory (.dolt/tmp, or the system's if that is on the same file system): the
+	// harnesses do the same inside the simulated root
+	simos.OnInstall = func(root string) func() {
+		old := tempfiles.MovableTempFileProvider
+		dir := filepath.Join(root, "tmp")
+		os.MkdirAll(dir, 0o755)
+		tempfiles.MovableTempFileProvider = tempfiles.NewTempFileProviderAt(dir)
+		return func() { tempfiles.MovableTempFileProvider = old }
+	}
+}
 
 // Exports for the other harness packages (refs, sql).
 
